@@ -398,8 +398,9 @@ TEMPLATES = [
      [("pipeline element", "map")]),
     ("pipeline:\n  - __type__: %(c)s.DummyPool\n__config_test:\n  <<: {T0} {{a: 1}}\n  b: 2\n",
      [("value of a merge key", "map")]),
-    ("pipeline:\n  - __type__: %(c)s.DummyPool\nzzz_extra: {T0}\n  a: 1\n.hidden: {T1} [1]\n_private: {T2} x\n",
-     [("an unclaimed extra section", "map"), ("an extra section with a dotted name", "seq"), ("an extra section with an underscore name", "str")]),
+    ("pipeline:\n  - __type__: %(c)s.DummyPool\nzzz_extra: {T0}\n  a: 1\n", [("an unclaimed extra section", "map")]),
+    ("pipeline:\n  - __type__: %(c)s.DummyPool\n.hidden: {T0} [1]\n", [("an extra section with a dotted name", "seq")]),
+    ("pipeline:\n  - __type__: %(c)s.DummyPool\n_private: {T0} x\n", [("an extra section with an underscore name", "str")]),
 ]
 BENIGN_TAG = {"str": "!!str", "seq": "!!seq", "map": "!!map"}
 
